@@ -53,6 +53,7 @@ type runner struct {
 	withDrv  bool
 	nontriv  bool
 	alias    *aliasTracker
+	fatal    []string        // failures of the harness' own machinery in this scenario
 	luModes  map[string]bool // which variant of ContractStorageLastUpdatedBlock the code showed (see compare)
 	probeLo  uint64          // first block number probed after every op (0 for ordinary scenarios)
 }
@@ -549,6 +550,7 @@ func (r *runner) checkOverlay(op int) {
 	}
 	truth, err := buildBase(r.scn.NewState, r.scn.Base)
 	if err != nil {
+		r.fatal = append(r.fatal, fmt.Sprintf("overlay oracle: second node: %v", err))
 		return
 	}
 	sent := sentBlocks(r.scn)
@@ -558,18 +560,19 @@ func (r *runner) checkOverlay(op int) {
 		// of it: the reference is independent of AdaptPreConfirmed* and StateDiff.Merge.
 		sb, known := sent[e.Block.Number]
 		if !known {
-			r.hit("overlay-block-not-in-scenario")
+			r.fatal = append(r.fatal, fmt.Sprintf("overlay oracle: block %d of the view is not in the scenario", e.Block.Number))
 			return
 		}
 		d := sb.diff
 		if err := truth.finalise(d, classMap(sb.classes)); err != nil {
-			r.hit("overlay-truth-rejects-block")
+			// the generator promises well-formed blocks: a rejection turns the oracle off
+			r.fatal = append(r.fatal, fmt.Sprintf("overlay oracle: the canonical node rejected generated block %d: %v", e.Block.Number, err))
 			return
 		}
 		num := e.Block.Number
 		want, _, err := truth.bc.StateAtBlockNumber(num)
 		if err != nil {
-			r.hit("overlay-truth-state-error")
+			r.fatal = append(r.fatal, fmt.Sprintf("overlay oracle: canonical state at %d: %v", e.Block.Number, err))
 			return
 		}
 		got, _, err := v.PreConfirmedStateAt(num, r.base.bc)
@@ -586,7 +589,9 @@ func (r *runner) checkOverlay(op int) {
 		}
 		// state before tx index k of this block, k = len(txs), is the state at the block
 		full, _, err := v.PreConfirmedStateBeforeIndexAt(num, uint(len(e.Block.Transactions)), r.base.bc)
-		if err == nil {
+		if err != nil {
+			r.violate(op, "overlay-before-last-index-unavailable", fmt.Sprintf("PreConfirmedStateBeforeIndexAt(%d, %d): %v", num, len(e.Block.Transactions), err))
+		} else {
 			if fs := reads(full); fs != ws {
 				r.violate(op, "overlay-before-last-index-"+firstDiffSection(ws, fs)+"-differs-from-applied-diffs",
 					fmt.Sprintf("PreConfirmedStateBeforeIndexAt(%d, %d) differs from canonical state at %d:\n view : %s\n canon: %s", num, len(e.Block.Transactions), num, fs, ws))
@@ -663,6 +668,7 @@ func (r *runner) checkLastUpdated(op int, v *preconfirmed.ChainReader, b, block 
 			addr := felt.Address(af)
 			got, err := sr.ContractStorageLastUpdatedBlock(&addr, &kf)
 			if err != nil {
+				r.violate(op, "storage-last-updated-block-errors", fmt.Sprintf("ContractStorageLastUpdatedBlock(%d, %d) through the view: %v", a, k, err))
 				continue
 			}
 			want := uint64(0)
